@@ -164,3 +164,68 @@ def set_user_options_then_call(sp: bool, s: int, s2p: bool, s2: int, reset: bool
 
 FUNCTIONS = ["iter_precedence", "plain_key_precedence", "update_reuse_coupling", "mode_alias", "numba_fallback",
              "set_user_options_then_call"]
+
+
+# ---- the resolved stage limits are the ones in force --------------------------------------------------------
+import importlib as _importlib
+
+import numpy as _np
+
+_pf = _importlib.import_module("pandapipes.pipeflow")
+
+
+class _ANet(dict):
+    """attribute + item access like pandapipesNet (only what the stage functions touch)"""
+    def __getattr__(self, name):
+        try:
+            return self[name]
+        except KeyError:
+            raise AttributeError(name)
+
+    def __setattr__(self, name, value):
+        self[name] = value
+
+
+def _never_converging(n_pairs, calls):
+    def solve(net):
+        calls.append(1)
+        res = []
+        for _ in range(n_pairs):
+            res += [_np.array([1.0, 2.0]), _np.array([0.0, 0.0])]       # change 2 >> tolerance
+        return res, _np.array([5.0, 5.0]), [None] * n_pairs
+    return solve
+
+
+def stage_limit_in_force(stage: int, hi: int, ti: int, bi: int) -> bool:
+    """
+    pre: 0 <= stage <= 2
+    pre: 1 <= hi <= 3 and 1 <= ti <= 3 and 1 <= bi <= 3
+    post: __return__
+    """
+    # the real hydraulics / heat_transfer / bidirectional with the real newton_raphson and finalize_iteration; the
+    # per-iteration solve never converges, so the number of solves is the iteration limit that is in force
+    calls = []
+    saved = {n: getattr(_pf, n) for n in ("reduce_pit", "identify_active_nodes_branches", "solve_hydraulics",
+                                          "solve_temperature", "solve_bidirectional")}
+    net = _ANet()
+    net["_options"] = dict(DEFAULTS, max_iter_hyd=hi, max_iter_therm=ti, max_iter_bidirect=bi, nonlinear_method="constant",
+                           alpha=1.0)
+    net["user_pf_options"] = {}
+    net["fluid"] = _Fluid()
+    net["converged"] = False
+    try:
+        _pf.reduce_pit = lambda *a, **k: None
+        _pf.identify_active_nodes_branches = lambda *a, **k: None
+        _pf.solve_hydraulics = _never_converging(3, calls)
+        _pf.solve_temperature = _never_converging(2, calls)
+        _pf.solve_bidirectional = _never_converging(5, calls)
+        try:
+            (_pf.hydraulics if stage == 0 else _pf.heat_transfer if stage == 1 else _pf.bidirectional)(net)
+            raised = False
+        except ps.PipeflowNotConverged:
+            raised = True
+    finally:
+        for n, f in saved.items():
+            setattr(_pf, n, f)
+    expected = hi if stage == 0 else ti if stage == 1 else bi
+    return raised and len(calls) == expected and not net["converged"]
